@@ -10,7 +10,7 @@
  *         lh_ls (Lawson-Hanson on the least-squares system M,y)
  * output:
  *   BEGIN <id>
- *   ... whatever the solver prints with verbose=1 (block3 only: its own trace, no hook needed) ...
+ *   ... whatever the solver prints with verbose=1 (every solver: its own trace, no hook needed) ...
  *   X <id> <n hex doubles>
  *   END <id>
  * Every case is flushed so that the driver can tell which case hung (the unchanged walk_descents
@@ -69,14 +69,14 @@ int main(void)
 		/* each solver changes cholmod_common (orderings): start every case from defaults */
 		cholmod_l_finish(&c); cholmod_l_start(&c);
 		if (!strcmp(solver, "block3")) x = nnls_normal_block3(A, b, 1, &c);
-		else if (!strcmp(solver, "block")) x = nnls_normal_block(A, b, 0, &c);
-		else if (!strcmp(solver, "updown")) x = nnls_normal_block_updown(A, b, 0, &c);
+		else if (!strcmp(solver, "block")) x = nnls_normal_block(A, b, 1, &c);
+		else if (!strcmp(solver, "updown")) x = nnls_normal_block_updown(A, b, 1, &c);
 		else if (!strcmp(solver, "lh_ne")) {
 			double tol = 0; for (k = 0; k < n; k++) if (fabs(((double *)b->x)[k]) > tol) tol = fabs(((double *)b->x)[k]);
-			x = nnls_lawson_hanson(A, b, 1e-12 * (tol > 0 ? tol : 1), 0, 20 * (int)n + 20, 0, 1, 0, &c);
+			x = nnls_lawson_hanson(A, b, 1e-12 * (tol > 0 ? tol : 1), 0, 20 * (int)n + 20, 0, 1, 1, &c);
 		} else if (!strcmp(solver, "lh_ls") && M) {
 			double tol = 0; for (k = 0; k < n; k++) if (fabs(((double *)b->x)[k]) > tol) tol = fabs(((double *)b->x)[k]);
-			x = nnls_lawson_hanson(M, y, 1e-12 * (tol > 0 ? tol : 1), 0, 20 * (int)n + 20, 0, 0, 0, &c);
+			x = nnls_lawson_hanson(M, y, 1e-12 * (tol > 0 ? tol : 1), 0, 20 * (int)n + 20, 0, 0, 1, &c);
 		} else { fprintf(stderr, "unknown solver %s\n", solver); return 2; }
 		fflush(stdout);
 		printf("X %s", id);
